@@ -80,7 +80,7 @@ func VH_C03_CommitLoop(syncMode, nReq int) {
 	gen := &Generation{ID: 7, GroupID: "g", MemberID: "m", conn: co, done: make(chan struct{}), joined: make(chan struct{}),
 		log: func(func(Logger)) {}, logError: func(func(Logger)) {}}
 	cfg := ReaderConfig{GroupID: "g", CommitInterval: 0}
-	if syncMode == 0 {
+	if syncMode == 0 || syncMode == 2 {
 		cfg.CommitInterval = 1000000
 	}
 	stctx, stop := context.WithCancel(context.Background())
@@ -116,6 +116,27 @@ func VH_C03_CommitLoop(syncMode, nReq int) {
 	// let the loop process what is queued, then end the generation
 	if vhIsSymbolic() {
 		vhRun(vhSpawned())
+	}
+	if syncMode == 2 {
+		// interval mode: the commit ticker fires while the generation lives - everything passed so far is
+		// flushed now, not only when the generation ends
+		before := len(co.commits)
+		vhFireNext()
+		if vhIsSymbolic() {
+			vhRun(vhSpawned())
+		}
+		if nReq > 0 {
+			vhAssert(len(co.commits) > before, "interval-tick-commits-the-stashed-offsets")
+		}
+		for p, h := range highest {
+			seen := false
+			for _, c := range co.commits[before:] {
+				if int(c.partition) == p && c.offset == h+1 {
+					seen = true
+				}
+			}
+			vhAssert(seen, "interval-tick-commits-highest-passed-plus-one-for-every-partition")
+		}
 	}
 	cancel()
 	<-loopDone
